@@ -147,6 +147,13 @@ fn end_to_end(report: &mut Report, code: &str, order: &[&str], generator: &str) 
     let output = resources.get("src/main.lua").unwrap();
     report.count("e2e_checked", 1);
     if let Err(e) = lua51check::check(&output) {
+        // known finding F31: no lowering rule rewrites string TOKENS, and the token-based writer keeps them as
+        // written — boundary: generator retain_lines, the complaint is about an escape, and a quoted string of the
+        // SOURCE contains `\x` / `\u{` / `\z`
+        if generator == "retain_lines" && e.starts_with("escape") && luaucheck::has_luau_string_escape(code) {
+            report.count("e2e_known_F31_luau_string_escape", 1);
+            return;
+        }
         report.violation(Violation {
             kind: "oracle".into(),
             check: format!("e2e:lua51:{}", generator),
@@ -157,7 +164,7 @@ fn end_to_end(report: &mut Report, code: &str, order: &[&str], generator: &str) 
     }
 }
 
-fn one_program(model: &mut Model, r: &mut Report, rng: &mut Rng, code: &str) {
+fn one_program(model: &mut Model, r: &mut Report, rng: &mut Rng, code: &str, every_generator: bool) {
     for rule in RULES.iter() {
         let json_text = format!("'{}'", rule);
         let case = LuauCase { rule_name: rule, rule_json: &json_text, model_name: rule, check_census: true, check_behaviour: false };
@@ -195,7 +202,14 @@ fn one_program(model: &mut Model, r: &mut Report, rng: &mut Rng, code: &str) {
         all_together(model, r, code, &order, false);
     }
     r.case(None::<u8>);
-    if rng.chance(1, 3) {
+    if every_generator {
+        // corpus programs: the whole pipeline with each of the three generators, in the fixed order
+        if luaucheck::continue_in_loops_code(model, code) {
+            for generator in ["retain_lines", "dense", "readable"] {
+                end_to_end(r, code, &RULES, generator);
+            }
+        }
+    } else if rng.chance(1, 3) {
         let generator = *rng.pick(&["retain_lines", "dense", "readable"]);
         let mut order: Vec<&str> = RULES.to_vec();
         if rng.chance(1, 2) {
@@ -239,7 +253,7 @@ pub fn run(report: &mut Report, replay: Option<&str>) {
         if let Ok(text) = std::fs::read_to_string(path) {
             if let Ok(v) = serde_json::from_str::<serde_json::Value>(&text) {
                 if let Some(code) = v["input"]["code"].as_str() {
-                    one_program(&mut model, report, &mut rng, code);
+                    one_program(&mut model, report, &mut rng, code, true);
                 }
             }
         }
@@ -252,7 +266,7 @@ pub fn run(report: &mut Report, replay: Option<&str>) {
         let mut rng = Rng::new(report.seed);
         for (name, code) in corpus("C07") {
             report.hist("corpus", &name);
-            one_program(&mut model, report, &mut rng, &code);
+            one_program(&mut model, report, &mut rng, &code, true);
         }
     }
     let programs_per_thread: usize = if report.is_thorough() { 1500 } else { 150 };
@@ -277,7 +291,7 @@ pub fn run(report: &mut Report, replay: Option<&str>) {
                 r.hist("generator", "progen_c06");
                 code
             };
-            one_program(&mut model, r, &mut rng, &code);
+            one_program(&mut model, r, &mut rng, &code, false);
         }
     });
     let _ = rulecheck::LEVEL;
